@@ -253,6 +253,8 @@ fn calculate_path(
     bufs: &mut CurveBuffers,
     optimized_len: &mut f64,
 ) {
+    bufs.path.clear();
+
     if points.is_empty() {
         return;
     }
